@@ -70,6 +70,7 @@ REQUIRED_THEOREMS = ['Props.C14.linear_is_addmm', 'Props.C14.cross_entropy_is_nl
                      'Props.C14.linear_grads_are_matmul_grads', 'Props.C14.mean_grad_is_sum_div_grad',
                      'Props.C14.conv1d_is_conv2d_row', 'Props.C14.avgpool1d_is_avgpool2d_row', 'Props.C14.maxpool1d_is_maxpool2d_row',
                      'Props.C14.conv1d_is_unfold_matmul', 'Props.C14.avgpool1d_is_unfold_mean', 'Props.C14.maxpool1d_is_unfold_max']
+REQUIRED_THEOREMS += ['Props.C14.' + t for t in ['src_bce_logits_scalars', 'src_bce_scalars', 'src_sigmoid_scalars', 'src_bce_logits_backward_at_zero']]   # ties to cpu_ops.py as read on this run
 RULE = ('one program per identity and operand set, both sides built over the same leaves: cross-entropy | NLL of log_softmax; '
         'BCE-with-logits | BCE of sigmoid (moderate logits); log_softmax | log of softmax; linear | x @ W.T + b; addmm | a + b @ c; '
         'conv2d | unfold, matmul, reshape; max/avg pool | unfold, max/mean; a - b | a + (-b); a / b | a * b**-1; mean | sum / count; '
@@ -656,6 +657,12 @@ def geometry_grid(tier):
             out.append((w, g, 0 if w == 'conv2d' else (j // 2) % 5))
     return out
 
+
+
+def extract():
+    """the scalar formulas behind the fused losses are re-read from cpu_ops.py (Generated/KernelFormulas.lean); the src_* theorems are re-checked by the build"""
+    import formulas
+    return formulas.write()[0]
 
 def cases(rng, tier):
     out = []
